@@ -82,6 +82,17 @@ def coords2 : IO Unit := do
     let o := fun (x : Option Rat) => match x with | some v => ratS v | none => "err"
     let m := match getRegion es ns with | some r => s!"{ratS r.w} {ratS r.e} {ratS r.s} {ratS r.n}" | none => "err"
     IO.println s!"getRegion {",".intercalate (es.map ratS)} {",".intercalate (ns.map ratS)} | {o g.1} {o g.2.1} {o g.2.2.1} {o g.2.2.2} | {m}"
+  let lc := fun (x : Except Err (List Rat)) => match x with | .ok l => (if l.isEmpty then "-" else ",".intercalate (l.map ratS)) | .error .valueError => "err" | .error _ => "err2"
+  for (a, b) in [((0 : Rat), (10 : Rat)), (-2, 1/2), (3, 3), (1/10, 7/10)] do
+    for px in [false, true] do
+      for adj in ["spacing", "region", "nearest"] do
+        for sp in [(1 : Rat), 5/2, 20, 1/3] do
+          let m := lineCoordinates a b none (some sp) (if adj = "spacing" then .spacing else if adj = "region" then .region else .bad) px
+          IO.println s!"lineCoordinates {ratS a} {ratS b} none {ratS sp} {adj} {px} | {lc (Gen.lineCoordinates a b none (some sp) adj px)} | {lc m}"
+      for n in [(0 : Nat), 1, 2, 5, 38] do
+        IO.println s!"lineCoordinates {ratS a} {ratS b} {n} none spacing {px} | {lc (Gen.lineCoordinates a b (some (n : Int)) none "spacing" px)} | {lc (lineCoordinates a b (some n) none .spacing px)}"
+    IO.println s!"lineCoordinates {ratS a} {ratS b} none none spacing false | {lc (Gen.lineCoordinates a b none none "spacing" false)} | {lc (lineCoordinates a b none none .spacing false)}"
+    IO.println s!"lineCoordinates {ratS a} {ratS b} 3 1 spacing false | {lc (Gen.lineCoordinates a b (some 3) (some 1) "spacing" false)} | {lc (lineCoordinates a b (some 3) (some 1) .spacing false)}"
   for (nn, ne) in [((2 : Nat), (2 : Nat)), (3, 5), (7, 2), (14, 11), (2, 9)] do
     for px in [false, true] do
       for r in [(⟨0, 10, -5, 1⟩ : Region), ⟨-1/2, 21/2, -11/2, 3/2⟩, ⟨3, 3, 1, 4⟩] do
